@@ -758,6 +758,13 @@ impl Lowerer<'_, '_> {
     }
 
     fn drop(&mut self, val: mir::Place, ty: TyRef) {
+        // A zero-sized root variable has no stack slot that a projection
+        // could point into. Zero-sized values are not dropped (see the
+        // `Location::Var` case below), so neither are their components.
+        if self.layout_of(val.root_ty).is_none_or(|l| l.size() == 0) {
+            return;
+        }
+
         let Some(var) = self.location(val, ty) else {
             return;
         };
